@@ -68,6 +68,8 @@ def main():
                     a2 = subprocess.run([sys.executable, chk, "--replay", path], env=dict(os.environ), cwd=VERIF, capture_output=True, text=True)
                     dig = "digest DIFFERS" not in a1.stdout
                     rep.append(f"replay:{a1.returncode}/{'same-digest' if dig else 'DIGEST-DIFFERS'}/clean-tree:{a2.returncode}")
+                    if "VIOLATION property=" not in a1.stdout:
+                        dig = False  # exit 1 without the line is not a reproduction
                     if a1.returncode != 1 or not dig or a2.returncode != 0:
                         replay_bad.append((name, path, a1.returncode, dig, a2.returncode, a1.stdout[-400:], a2.stdout[-700:]))
                 verdicts.append((prop, r.returncode, classes + rep, round(time.time() - t0)))
